@@ -128,6 +128,11 @@ def bucket_tables(ctx, cr):
                     if v and v[0] == "str":
                         return [(("sym", "BOLD"), mon.set(header=v[1]))]
                 if decl == "std::iter::Iterator::next" and term.get("to") is not None:
+                    it = a.resolve(st, args[0]) if args else None
+                    if it is not None and it[0] == "ref":
+                        cur = a.resolve(st, a.read_at(st, it[1], it[2]))
+                        if cur[0] == "tuple" and len(cur[1]) == 3 and cur[1][0] == ("str", "__array_cursor__"):
+                            return None          # a loop over a fixed table of sections: unrolled by the engine
                     if mon.get("it", 0) >= 1:
                         return [(("enum", ai.OPTION, 0, ()), mon.set(status=None))]
                     return [(("enum", ai.OPTION, 1, (("ref", ("X", "ELEMCELL"), ()),)), mon.set(status=None, it=1)), (("enum", ai.OPTION, 0, ()), mon.set(status=None))]
